@@ -341,3 +341,5 @@ def run(chk, facts, tier):
     c14_canerr.per_policy_typecheck(chk, facts)
     from rules import c02_ops
     c02_ops.check_tpe(chk, facts)
+    from rules import c14_query
+    c14_query.check(chk, facts)
